@@ -82,8 +82,10 @@ pub fn run_case(c: &Case, base: &[StepRec]) -> Result<String, String> {
                 CallKind::Merge => matches!(e, ErrClass::Merge(p) if p == PAYLOAD),
                 CallKind::Create => match c.creator_err {
                     CreatorErr::Io => matches!(e, ErrClass::Io { kind, payload } if *kind == kind_of(&c.kind) || payload.contains(PAYLOAD)),
-                    CreatorErr::InvalidCompressionType => matches!(e, ErrClass::InvalidCompressionType),
-                    CreatorErr::InvalidFormatVersion => matches!(e, ErrClass::InvalidFormatVersion),
+                    // the statement fixes the shape for I/O and merge failures only: a creator failing
+                    // with another variant must surface as an error (no panic, no success), as that
+                    // variant or wrapped
+                    CreatorErr::InvalidCompressionType | CreatorErr::InvalidFormatVersion => !matches!(e, ErrClass::Merge(_)),
                 },
                 _ => match e {
                     // "carrying that failure": with no third-party codec in between, the io error must
